@@ -69,6 +69,9 @@ func init() {
 				} else {
 					p, pc = gen.DrawProgram(rt, env, gen.DrawOpts{}, rejectCounter(rec))
 				}
+				if rapid.IntRange(0, 2).Draw(rt, "withParams") == 0 {
+					pc.Params = gen.DrawParams(rt)
+				}
 				checkC07(rt, rec, all, p, pc)
 			})
 		},
@@ -178,6 +181,28 @@ func checkC07(t core.TB, rec *core.Recorder, all *core.Set, p *core.Program, pc 
 	rec.Eval()
 	for i := range p.Files {
 		diags, _ := all.RunAll(p, i) // crashes are C01's subject
+		judgeDiagnostics(t, rec, p, pc, i, diags)
+	}
+	// the parameterised checkers again under the drawn parameter values (a position can depend on
+	// which branch a threshold selects)
+	if len(pc.Params) > 0 {
+		gen.WithParams(pc.Params, func() {
+			set, err := core.NewSet(p.Fset, gen.ParamCheckers(pc.Params))
+			if err != nil {
+				rec.Count("param-init-error")
+				return
+			}
+			for i := range p.Files {
+				diags, _ := set.RunAll(p, i)
+				judgeDiagnostics(t, rec, p, pc, i, diags)
+			}
+		})
+	}
+	rec.Sample("case", 3, progSample(pc, nil))
+}
+
+func judgeDiagnostics(t core.TB, rec *core.Recorder, p *core.Program, pc *gen.ProgCase, i int, diags map[string][]core.Diag) {
+	{
 		var starts map[int]bool
 		names := make([]string, 0, len(diags))
 		for n := range diags {
@@ -229,7 +254,6 @@ func checkC07(t core.TB, rec *core.Recorder, all *core.Set, p *core.Program, pc 
 			}
 		}
 	}
-	rec.Sample("case", 3, progSample(pc, nil))
 }
 
 // nodeKindAt classifies the token at offset (used only to make non-trivial cases distinct).
